@@ -178,16 +178,6 @@ end
 
 open Examples
 
-/-- a 3-state game: state 0 is probabilistic with one dead (state 1, a sink) and one live
-successor (the final state 2) -/
-def gDead : Game Rat where
-  rewards := #[0, 0, 0]
-  owners := #[.prob, .prob, .prob]
-  tl := #[[tr "" (1/2) 1, tr "" (1/2) 2], [tr "" 1 1], [tr "" 1 2]]
-  finals := [2]
-
-def key (t : Tr Rat) : String × Rat × Nat := (t.act, t.p, t.tgt)
-
 /-- the OLD pruning (in-place removal) edits the caller's lists: afterwards the description of
 state 0 says `[(1/2, 2)]` — not even a distribution — instead of `[(1/2, 1), (1/2, 2)]`, and
 the sink state 1 (whose only successor, itself, is dead) has lost its transitions altogether, so
